@@ -17,6 +17,17 @@ Legs
   A  single-step exhaustive observe: every multiset of <=3 (thorough <=4) items over ids {a,b,c} x
      scores {NaN,.1,.2,.5,.9}, in every distinct order, from {absent, G4}, for every config whose
      deviations are all observe-relevant (2-deviation configs: one item fewer).
+  E  item representation: observe_retrieval takes "items that carry (id, score)" and the orchestrator hands it
+     whatever T2 retrieved ("gel adapts dicts/objs/tuples"), so the SAME (id, score) content is also presented in
+     every representation of SHAPES: tuple, {"id","score"} dict, EpisodeRef dataclass, __slots__ ref object (the
+     shape T2 really produces), and dict / attribute objects that additionally carry the fields retrieval hits
+     have besides the score (owner, text and the score-like aliases similarity / sim / weight / _score, set to a
+     DECOY value on the other side of the threshold: 1-score).  Every multiset of <=2 (thorough <=3) items over
+     ids {a,b,c} x scores {NaN, 0, .1, .2, .5, .9, 1} (the documented score range [0,1] incl. both end points; 0.0
+     is the one score that is falsy), in every homogeneous representation and (<=2 items; quick: default config
+     only, thorough: configs with <=1 deviation) every mixed assignment of representations to items, in every distinct order, from {absent, G4}, for the
+     observe-relevant configs with <=1 deviation (thorough: 2 deviations with one item fewer); judged by the same
+     observe oracle on the items' (id, score) content.  An item's score is its `score`; other fields are not the score.
   C  closed gate x 4 ctx shapes (dict / ns.cfg / ns.config / both) x 4 stores, incl. "graph key absent".
   D  (cheap) one real orchestrator turn with graph.enabled=false (sub-gates on) over a pre-seeded
      state['graph'], and the same turn with the gate on (anti-vacuity).
@@ -291,7 +302,69 @@ def distinct_perms(items):
 
 
 def as_tuples(items):
-    return [(str(i), float(s)) for i, s in items]
+    """the (id, score) content of an item list; an item is [id, score] or [id, score, representation]"""
+    return [(str(it[0]), float(it[1])) for it in items]
+
+
+# ---- item representations (leg E).  One (id, score) content, several carriers.
+try:  # the dataclass the engine's own T2Result.retrieved is typed with
+    from clematis.engine.types import EpisodeRef as _EpisodeRef
+    _EpisodeRef(id="a", owner="A", score=0.5, text="")
+except Exception:  # a tree without it: a field-for-field twin
+    import dataclasses as _dc
+
+    @_dc.dataclass
+    class _EpisodeRef:  # type: ignore[no-redef]
+        id: str
+        owner: str
+        score: float
+        text: str = ""
+
+
+class _SlotsRef:
+    """field-for-field twin of the __slots__ reference object T2 puts into `retrieved` (no __dict__)"""
+    __slots__ = ("id", "text", "score")
+
+    def __init__(self, i, s):
+        self.id = i
+        self.text = ""
+        self.score = s
+
+
+# fields a retrieval hit carries besides its score; the numeric, score-like ones (the alias names the repo's own
+# hybrid reranker / T2 helpers list) are set to the decoy value
+SCORE_ALIASES = ("similarity", "sim", "weight", "_score")
+SHAPES = ["tuple", "dict", "ref", "slots", "dict+", "obj+"]
+
+
+def decoy(s: float) -> float:
+    """a value on the other side of every threshold in (0,1) the score is not on: the complement in [0,1]"""
+    return 1.0 - s if s == s else 0.9
+
+
+def build_item(it):
+    i, s = str(it[0]), float(it[1])
+    shape = it[2] if len(it) > 2 else "tuple"
+    if shape == "tuple":
+        return (i, s)
+    if shape == "dict":
+        return {"id": i, "score": s}
+    if shape == "ref":
+        return _EpisodeRef(id=i, owner="A", score=s, text="")
+    if shape == "slots":
+        return _SlotsRef(i, s)
+    extras = {k: decoy(s) for k in SCORE_ALIASES}
+    if shape == "dict+":
+        d = dict(extras)
+        d.update({"owner": "A", "text": "", "id": i, "score": s})
+        return d
+    if shape == "obj+":
+        return types.SimpleNamespace(id=i, owner="A", score=s, text="", **extras)
+    raise HarnessError("unknown item representation %r" % (shape,))
+
+
+def as_engine_items(items):
+    return [build_item(it) for it in items]
 
 
 # ------------------------------------------------------------------ oracles
@@ -531,7 +604,7 @@ def _step(c: Cfg, store_json: str, exempt: set, op, st: Stats = None, all_perms:
         first = None
         for pi, perm in enumerate(perms):
             s = mk_state(store_json)
-            m = engine(gel.observe_retrieval, c.ctx, s, as_tuples(perm), turn=TURN, agent="A")
+            m = engine(gel.observe_retrieval, c.ctx, s, as_engine_items(perm), turn=TURN, agent="A")
             if st is not None:
                 st.add("transitions")
             post = norm_store(store_of(s), copy=False)
@@ -760,6 +833,64 @@ def _observe_worker(chunk, st: Stats, max_len):
             st.sample({"kind": "history", "devs": jd, "init": init, "history": [["observe", ms[len(ms) // 2]]]})
 
 
+# ------------------------------------------------------------------ leg E: item representations
+SHAPE_SCORES = [NAN, 0.0, 0.1, 0.2, 0.5, 0.9, 1.0]
+
+
+def shaped_lists(max_len: int, mixed_len: int = 2):
+    """every multiset of <=max_len (id, score) items, in every homogeneous representation, and for multisets of
+    <=mixed_len items in every assignment of representations to the items"""
+    combos = [[i, s] for i in ITEM_IDS for s in SHAPE_SCORES]
+    out = [[]]
+    for n in range(1, max_len + 1):
+        for idx in itertools.combinations_with_replacement(range(len(combos)), n):
+            base = [combos[i] for i in idx]
+            if n <= mixed_len:
+                assigns = itertools.product(SHAPES, repeat=n)
+            else:
+                assigns = [(sh,) * n for sh in SHAPES]
+            seen = set()
+            for a in assigns:
+                L = [[b[0], b[1], sh] for b, sh in zip(base, a)]
+                key = tuple(sorted(repr(x) for x in L))   # identical items: assignments that are permutations
+                if key in seen:
+                    continue
+                seen.add(key)
+                out.append(L)
+    return out
+
+
+def _shape_worker(chunk, st: Stats, max_len):
+    by_len = {}
+    for devs, init, n, mixed_len in chunk:
+        if (n, mixed_len) not in by_len:
+            by_len[(n, mixed_len)] = shaped_lists(n, mixed_len)
+        lists = by_len[(n, mixed_len)]
+        c = Cfg(devs)
+        s0 = initial_store(init, c)
+        j0 = dump(s0) if s0 is not None else "null"
+        jd = _jsonable_devs(devs)
+        for L in lists:
+            viol, nj, nex, oc, nontrivial = step(c, j0, set(), ["observe", L], st)
+            for sig, what in viol:
+                st.violation(sig, what, {"kind": "history", "devs": jd, "init": init, "history": [["observe", L]]})
+            mixed = len({x[2] for x in L}) > 1
+            st.distinct("outcomes", list(oc) + ([v[0] for v in viol[:1]]))
+            st.distinct("states", [jd, nj, []])
+            if nontrivial:
+                st.distinct("nontrivial", [jd, init, j0, [], ["observe", L]])
+            # anti-vacuity of the decoy: lists in which an item's score and its decoy fall on different sides of
+            # the threshold (a carrier read through the wrong field would change the eligible set)
+            if any(x[2] in ("dict+", "obj+") and ((float(x[1]) >= c.thr) != (decoy(float(x[1])) >= c.thr)) for x in L):
+                st.add("shape_lists_decoy_discriminates")
+            if mixed:
+                st.add("shape_lists_mixed")
+        st.add("shape_lists", len(lists))
+        if not devs and init == "absent":
+            st.sample({"kind": "history", "devs": jd, "init": init,
+                       "history": [["observe", [["a", 0.9, "obj+"], ["b", 0.0, "obj+"], ["c", 0.5, "slots"]][:max(2, n)]]]})
+
+
 # ------------------------------------------------------------------ leg C: gate off, other ctx shapes / unvalidated "absent" gate
 def _gate_worker(chunk, st: Stats, thorough):
     ops = ops_alphabet(thorough)
@@ -912,6 +1043,19 @@ def run(run: Run) -> None:
     run.pmap(_observe_worker, obs_items, extra=(max_len,), chunks=len(obs_items))
     run.notes["wall_leg_A_s"] = round(_time.time() - _t, 1)
     _t = _time.time()
+    # leg E: item representations.  quick: <=2 items, observe-relevant configs with <=1 deviation, homogeneous
+    # representations (default config: also every mixed assignment).  thorough: <=3 items (<=1 deviation), <=2 items
+    # (2 deviations), mixed assignments for <=2 items under every config with <=1 deviation.
+    n_e = 3 if thorough else 2
+    shp_items = [(d, init, n_e if len(d) <= 1 else n_e - 1, 2 if ((thorough and len(d) <= 1) or not d) else 0)
+                 for i, d in obs_devs if (thorough or len(d) <= 1) for init in inits[i]]
+    run.notes["item_representations"] = list(SHAPES)
+    run.notes["item_representation_scores"] = ["NaN" if x != x else x for x in SHAPE_SCORES]
+    run.notes["item_representation_bound"] = n_e
+    run.notes["item_representation_leg_configs"] = len({json.dumps(_jsonable_devs(d), sort_keys=True) for d, _, _, _ in shp_items})
+    run.pmap(_shape_worker, shp_items, extra=(n_e,), chunks=len(shp_items))
+    run.notes["wall_leg_E_s"] = round(_time.time() - _t, 1)
+    _t = _time.time()
     # leg C
     run.pmap(_gate_worker, accepted, extra=(thorough,))
     run.notes["wall_leg_C_s"] = round(_time.time() - _t, 1)
@@ -942,10 +1086,23 @@ def run(run: Run) -> None:
                 "over %s operations (observe lists with every distinct permutation, tick dt in {0,1,5}, merge/split/promote "
                 "passes), merged by canonical JSON of state.graph + promotion-written edge set; every operation also with the "
                 "gate closed at every state.  A: every multiset of <=%d items (<=1 deviation; one item fewer for 2-deviation "
-                "configs) over {a,b,c}x{NaN,.1,.2,.5,.9} in every order from {absent,G4}.  C: closed gate x 4 ctx shapes x 4 stores. "
+                "configs) over {a,b,c}x{NaN,.1,.2,.5,.9} in every order from {absent,G4}.  E: every multiset of <=%d items (%s) over "
+                "{a,b,c}x{NaN,0,.1,.2,.5,.9,1} with the items presented in every homogeneous representation of {%s} and, for <=2 "
+                "items%s, every mixed assignment of representations ('+' = carrier with owner/text and the score-like fields %s set "
+                "to the decoy 1-score), every distinct order, from {absent,G4}, same observe oracle on the (id, score) content.  "
+                "C: closed gate x 4 ctx shapes x 4 stores. "
                 "non-trivial = the step changed the graph (observe: and >1 order was run)" % (
-                    len(DIMS), run.notes["special_values_enumerated"], run.notes["bfs_depth_bound"], run.notes["ops_per_state"], max_len))
+                    len(DIMS), run.notes["special_values_enumerated"], run.notes["bfs_depth_bound"], run.notes["ops_per_state"], max_len,
+                    n_e, "observe-relevant configs with <=1 deviation; one item fewer for 2-deviation configs" if thorough
+                    else "observe-relevant configs with <=1 deviation", ", ".join(SHAPES),
+                    " under configs with <=1 deviation" if thorough else " under the default config", "/".join(SCORE_ALIASES)))
     run.assume("item ids are plain strings without the key separator '→' (ids containing it can make two unordered pairs collide on one key; not in the alphabet)")
+    run.assume("an item's score is the value of its `score` field / second tuple element; items are tuples, dicts with 'id' and "
+               "'score', or objects with .id and .score (docstring: 'each item should carry (id, score)'); any further field of a "
+               "carrier (owner, text, similarity, sim, weight, _score) is not the score.  Carriers WITHOUT a score field (similarity "
+               "only), other id field names, list-shaped items and score=None are not in the alphabet (the statement is silent)")
+    run.assume("legs A/B/C present items as (id, score) tuples; the representation only matters to the stateless item adapter, so "
+               "leg E varies it on single observe steps from {absent, G4}, not inside histories")
     run.assume("decay_dt >= 0 (tick is only ever called with 1 by the orchestrator)")
     run.assume("edges last written by a promotion pass are exempt from the update clamp until observed again (promotion clamps to [-1,1] by its own documented rule)")
     run.assume("the additive/proportional increment itself, and WHICH pairs survive a binding pair cap, are not part of the statement and are not checked (only: within clamp, <= cap, among the eligible items, order-insensitive)")
@@ -978,7 +1135,7 @@ def _replay_history(case):
             return out   # the engine raised on this operation: reported, history ends here
         # ... advance the live object with the real call and cross-check the explorer's successor
         if op[0] == "observe":
-            gel.observe_retrieval(c.ctx, state, as_tuples(op[1]), turn=TURN, agent="A")
+            gel.observe_retrieval(c.ctx, state, as_engine_items(op[1]), turn=TURN, agent="A")
         elif op[0] == "tick":
             gel.tick(c.ctx, state, decay_dt=op[1], turn=TURN, agent="A")
         else:
